@@ -527,3 +527,31 @@ theorem C19_memo_by_reference_counterexample :
   decide
 
 end ChiModel.Ownership
+
+/-! ## containers allocated without contents: every row written ⇒ the allocation history is invisible -/
+namespace ChiModel.Ownership
+variable {β : Type}
+
+theorem fillRowsFrom_all (rows : Nat → β) (skip : Nat → Bool) (h : ∀ i, skip i = false) :
+    ∀ (junk : List β) (k : Nat), fillRowsFrom rows skip k junk = (List.range' k junk.length).map rows
+  | [], _ => by simp [fillRowsFrom]
+  | _ :: js, k => by simp [fillRowsFrom, h, fillRowsFrom_all rows skip h js (k + 1), List.range'_succ]
+
+/-- the unchanged loop (no individual skipped): for ALL previous contents of the block (all call histories) and
+    all numbers of individuals the container handed on is the list of the individual gradients -/
+theorem C19_every_row_written_no_junk (rows : Nat → β) (skip : Nat → Bool) (h : ∀ i, skip i = false)
+    (junk junk' : List β) (hl : junk.length = junk'.length) :
+    fillRows rows skip junk = fillRows rows skip junk' ∧
+      fillRows rows skip junk = (List.range junk.length).map rows := by
+  unfold fillRows
+  rw [fillRowsFrom_all rows skip h, fillRowsFrom_all rows skip h, hl, List.range_eq_range']
+  exact ⟨rfl, rfl⟩
+
+/-- the seeded shortcut (C19-15): the individual without measurements is skipped, its row is what the block held -/
+theorem C19_skipped_row_counterexample :
+    fillRows (fun i => (10 * i : Nat)) (fun i => i == 1) [0, 0, 0] ≠
+      fillRows (fun i => (10 * i : Nat)) (fun i => i == 1) [0, 7, 0] := by decide
+
+example : fillRows (fun i => (10 * i : Nat)) (fun _ => false) [5, 6, 7] = [0, 10, 20] := by decide
+
+end ChiModel.Ownership
